@@ -222,156 +222,170 @@ def run_case(case, root, ck=None):
                         bad('C13:rename-onto-committed', 'rename onto existing committed blob file %r' % (k,))
 
             for op in case['ops']:
-                kind = op[0]
-                cnt('op:' + kind)
-                n_before = len(env.lines)
-                if kind == 'begin':
-                    if txn is not None:
-                        continue
-                    txn = TransactionMetaData()
-                    S.tpc_begin(txn)
-                    pending, failed, phase, foreign_seen = {}, False, 'begun', False
-                    linked_p = set(linked)
-                    check('begin')
-                elif kind in ('unlink', 'relink'):
-                    if txn is None or phase != 'begun' or op[1] not in oid_of:
-                        continue
-                    o = u64(oid_of[op[1]])
-                    if kind == 'unlink':
-                        linked_p.discard(o)
-                    elif o in L.hist and L.hist[o][-1][1] is not None:
-                        linked_p.add(o)
-                elif kind in ('blob', 'plain', 'missingblob', 'undo'):
-                    if txn is None or phase != 'begun' or failed:
-                        continue               # after a raising call the transaction is only aborted
-                    try:
-                        if kind == 'blob':
-                            o = oid(op[1])
-                            if u64(o) in pending:
-                                continue
-                            data = decode_data(op[2])
-                            tmp = os.path.join(S.temporaryDirectory(), 'w%d.tmp' % len(env.lines))
-                            with open(tmp, 'wb') as f:
-                                f.write(data)
-                            base = cur_serial(o)
-                            if op[3] and base != Z64:
-                                base = p64(u64(base) - 1)
-                            S.storeBlob(o, base, blob_pickle, tmp, '', txn)
-                            pending[u64(o)] = data
-                            linked_p.add(u64(o))
-                            if u64(o) in L.hist:
-                                nontrivial = True          # a blob is rewritten
-                        elif kind == 'missingblob':
-                            o = oid(op[1])
-                            if u64(o) in pending:
-                                continue
-                            tmp = os.path.join(S.temporaryDirectory(), 'nosuch%d.tmp' % len(env.lines))
-                            S.storeBlob(o, cur_serial(o), blob_pickle, tmp, '', txn)
-                        elif kind == 'plain':
-                            o = oid(op[1])
-                            if u64(o) in pending:
-                                continue
-                            S.store(o, cur_serial(o), zodb_pickle(MinPO(op[2])), '', txn)
-                            pending[u64(o)] = 'plain'
-                            linked_p.add(u64(o))
-                        else:
-                            cands = [t for t in L.txns if t[0] > L.packed_to]
-                            if not cands or pending:
-                                continue
-                            utid, uoids = cands[-min(op[1], len(cands))]
-                            S.undo(encodebytes(p64(utid)).rstrip(), txn)
-                            nontrivial = True              # undone
-                            for o in uoids:
-                                known, b = L.prev_bytes(o, utid)
-                                pending[o] = b if known else 'unknown'
-                            for t, before in root_hist:
-                                if t == utid:
-                                    linked_p = set(before)
-                    except Exception as e:
-                        failed = True
-                        cnt(errname(e))
-                        if pending:
-                            nontrivial = nontrivial or any(isinstance(b, bytes) for b in pending.values())
-                    check(kind)
-                elif kind == 'vote':
-                    if txn is None or failed or phase != 'begun':
-                        continue
-                    if 0 not in pending and (linked_p != linked or 0 not in L.hist):
-                        try:
-                            S.store(Z64, cur_serial(Z64), root_pickle(linked_p), '', txn)
-                            pending[0] = 'plain'
-                        except Exception as e:
-                            failed = True
-                            cnt(errname(e))
-                            continue
-                    S.tpc_vote(txn)
-                    phase = 'voted'
-                    check('vote')
-                elif kind == 'finish':
-                    if txn is None or failed or phase != 'voted':
-                        continue
-                    tid = u64(S.tpc_finish(txn))
-                    for o, b in pending.items():
-                        if b == 'unknown':
-                            # undo across a pack boundary: take what the storage wrote
-                            k = (o, tid)
-                            fl, _ = env.scan()
-                            b = fl.get(k)
-                        L.hist.setdefault(o, []).append((tid, b if isinstance(b, bytes) else None))
-                        if isinstance(b, bytes):
-                            L.files[(o, tid)] = b
-                    L.txns.append((tid, sorted(pending)))
-                    if 0 in pending:
-                        root_hist.append((tid, set(linked)))
-                    linked = set(linked_p)
-                    txn, pending = None, None
-                    check('finish')
-                elif kind == 'abort':
-                    if txn is None:
-                        continue
-                    if pending and any(isinstance(b, bytes) for b in pending.values()):
-                        nontrivial = True                  # the txn fails after storeBlob
-                    voted = phase == 'voted'
-                    S.tpc_abort(txn)
-                    txn, pending = None, None
-                    check('abort-voted' if voted else 'abort')
-                elif kind == 'fabort':
-                    S.tpc_abort(TransactionMetaData())
-                    foreign_seen = True
-                    check('foreign-abort')
-                elif kind == 'pack':
-                    if txn is not None or not L.txns:
-                        continue
-                    tids = [t for t, _ in L.txns]
-                    i = min(op[1], len(tids))
-                    # pack time: just after the i-th newest transaction (0: after everything)
-                    tt = TimeStamp(p64(tids[-1 - i] if i < len(tids) else tids[0])).timeTime()
-                    tt = tt + 0.5 if i < len(tids) else tt - 0.5
-                    try:
-                        if flavor == 'fs':
-                            S.pack(tt, referencesf, gc=bool(op[2]))
-                        else:
-                            S.pack(tt, referencesf)
-                    except Exception as e:
-                        cnt('pack:' + errname(e))
-                    recs = {(o, t) for o, t, kd in env.records()}
-                    blobrecs = {(o, t) for o, t, kd in env.records() if kd == 'blob'}
-                    removed = [k for k in L.files if k not in blobrecs]
-                    for k in removed:
-                        del L.files[k]
-                        L.gone.add(k)
-                        nontrivial = True                  # packed
-                    for o, h in L.hist.items():
-                        for t, b in h:
-                            if (o, t) not in recs:
-                                L.gone.add((o, t))
-                    if env.lines and env.lines[-1].startswith('pack '):
-                        L.packed_to = max(L.packed_to, int(env.lines[-1].split()[1]))
-                    check('pack')
-                for i in range(n_before, len(env.lines)):
-                    guard(i)
+              try:
+                  kind = op[0]
+                  cnt('op:' + kind)
+                  n_before = len(env.lines)
+                  if kind == 'begin':
+                      if txn is not None:
+                          continue
+                      txn = TransactionMetaData()
+                      S.tpc_begin(txn)
+                      pending, failed, phase, foreign_seen = {}, False, 'begun', False
+                      linked_p = set(linked)
+                      check('begin')
+                  elif kind in ('unlink', 'relink'):
+                      if txn is None or phase != 'begun' or op[1] not in oid_of:
+                          continue
+                      o = u64(oid_of[op[1]])
+                      if kind == 'unlink':
+                          linked_p.discard(o)
+                      elif o in L.hist and L.hist[o][-1][1] is not None:
+                          linked_p.add(o)
+                  elif kind in ('blob', 'plain', 'missingblob', 'undo'):
+                      if txn is None or phase != 'begun' or failed:
+                          continue               # after a raising call the transaction is only aborted
+                      try:
+                          if kind == 'blob':
+                              o = oid(op[1])
+                              if u64(o) in pending:
+                                  continue
+                              data = decode_data(op[2])
+                              tmp = os.path.join(S.temporaryDirectory(), 'w%d.tmp' % len(env.lines))
+                              with open(tmp, 'wb') as f:
+                                  f.write(data)
+                              base = cur_serial(o)
+                              if op[3] and base != Z64:
+                                  base = p64(u64(base) - 1)
+                              S.storeBlob(o, base, blob_pickle, tmp, '', txn)
+                              pending[u64(o)] = data
+                              linked_p.add(u64(o))
+                              if u64(o) in L.hist:
+                                  nontrivial = True          # a blob is rewritten
+                          elif kind == 'missingblob':
+                              o = oid(op[1])
+                              if u64(o) in pending:
+                                  continue
+                              tmp = os.path.join(S.temporaryDirectory(), 'nosuch%d.tmp' % len(env.lines))
+                              S.storeBlob(o, cur_serial(o), blob_pickle, tmp, '', txn)
+                          elif kind == 'plain':
+                              o = oid(op[1])
+                              if u64(o) in pending:
+                                  continue
+                              S.store(o, cur_serial(o), zodb_pickle(MinPO(op[2])), '', txn)
+                              pending[u64(o)] = 'plain'
+                              linked_p.add(u64(o))
+                          else:
+                              cands = [t for t in L.txns if t[0] > L.packed_to]
+                              if not cands or pending:
+                                  continue
+                              utid, uoids = cands[-min(op[1], len(cands))]
+                              S.undo(encodebytes(p64(utid)).rstrip(), txn)
+                              nontrivial = True              # undone
+                              for o in uoids:
+                                  known, b = L.prev_bytes(o, utid)
+                                  pending[o] = b if known else 'unknown'
+                              for t, before in root_hist:
+                                  if t == utid:
+                                      linked_p = set(before)
+                      except Exception as e:
+                          failed = True
+                          cnt(errname(e))
+                          if pending:
+                              nontrivial = nontrivial or any(isinstance(b, bytes) for b in pending.values())
+                      check(kind)
+                  elif kind == 'vote':
+                      if txn is None or failed or phase != 'begun':
+                          continue
+                      if 0 not in pending and (linked_p != linked or 0 not in L.hist):
+                          try:
+                              S.store(Z64, cur_serial(Z64), root_pickle(linked_p), '', txn)
+                              pending[0] = 'plain'
+                          except Exception as e:
+                              failed = True
+                              cnt(errname(e))
+                              continue
+                      S.tpc_vote(txn)
+                      phase = 'voted'
+                      check('vote')
+                  elif kind == 'finish':
+                      if txn is None or failed or phase != 'voted':
+                          continue
+                      tid = u64(S.tpc_finish(txn))
+                      for o, b in pending.items():
+                          if b == 'unknown':
+                              # undo across a pack boundary: take what the storage wrote
+                              k = (o, tid)
+                              fl, _ = env.scan()
+                              b = fl.get(k)
+                          L.hist.setdefault(o, []).append((tid, b if isinstance(b, bytes) else None))
+                          if isinstance(b, bytes):
+                              L.files[(o, tid)] = b
+                      L.txns.append((tid, sorted(pending)))
+                      if 0 in pending:
+                          root_hist.append((tid, set(linked)))
+                      linked = set(linked_p)
+                      txn, pending = None, None
+                      check('finish')
+                  elif kind == 'abort':
+                      if txn is None:
+                          continue
+                      if pending and any(isinstance(b, bytes) for b in pending.values()):
+                          nontrivial = True                  # the txn fails after storeBlob
+                      voted = phase == 'voted'
+                      S.tpc_abort(txn)
+                      txn, pending = None, None
+                      check('abort-voted' if voted else 'abort')
+                  elif kind == 'fabort':
+                      S.tpc_abort(TransactionMetaData())
+                      foreign_seen = True
+                      check('foreign-abort')
+                  elif kind == 'pack':
+                      if txn is not None or not L.txns:
+                          continue
+                      tids = [t for t, _ in L.txns]
+                      i = min(op[1], len(tids))
+                      # pack time: just after the i-th newest transaction (0: after everything)
+                      tt = TimeStamp(p64(tids[-1 - i] if i < len(tids) else tids[0])).timeTime()
+                      tt = tt + 0.5 if i < len(tids) else tt - 0.5
+                      try:
+                          if flavor == 'fs':
+                              S.pack(tt, referencesf, gc=bool(op[2]))
+                          else:
+                              S.pack(tt, referencesf)
+                      except Exception as e:
+                          cnt('pack:' + errname(e))
+                      recs = {(o, t) for o, t, kd in env.records()}
+                      blobrecs = {(o, t) for o, t, kd in env.records() if kd == 'blob'}
+                      removed = [k for k in L.files if k not in blobrecs]
+                      for k in removed:
+                          del L.files[k]
+                          L.gone.add(k)
+                          nontrivial = True                  # packed
+                      if flavor == 'wrap' and env.lines and env.lines[-1].startswith('pack '):
+                          on_disk = env.scan()[0]
+                          cnt('wrap-pack:' + ('exact' if all(k in on_disk for k in L.files) else
+                                              'removes-file-of-kept-revision'))
+                      for o, h in L.hist.items():
+                          for t, b in h:
+                              if (o, t) not in recs:
+                                  L.gone.add((o, t))
+                      if env.lines and env.lines[-1].startswith('pack '):
+                          L.packed_to = max(L.packed_to, int(env.lines[-1].split()[1]))
+                      check('pack')
+                  for i in range(n_before, len(env.lines)):
+                      guard(i)
+              except Exception as e:
+                import traceback
+                tb = traceback.extract_tb(e.__traceback__)
+                where = '%s:%d' % (os.path.basename(tb[-1].filename), tb[-1].lineno) if tb else '?'
+                bad('C13:operation-raised', 'op %r raised %s: %s (at %s)' % (op, type(e).__name__, str(e)[:120], where))
+                break
             if txn is not None:
-                S.tpc_abort(txn)
+                try:
+                    S.tpc_abort(txn)
+                except Exception:
+                    pass
                 txn, pending = None, None
                 check('abort')
             extra = ([], [])
